@@ -28,4 +28,20 @@ def driverLine (inp obs : List String) : Bool × Bool × String × String :=
     | none => (false, false, "C20/unparsable-observation", showOutcome m)
   | _ => (false, false, "bad-line", "")
 
+/-- `snie` (the same request, end to end through a real TLS server): the client sees a response (with the handler's view
+    of `validated_server_name`) or a failed request; which of the two rejections it was is not visible from outside. -/
+def e2eLine (inp obs : List String) : Bool × Bool × String × String :=
+  match inp with
+  | [h2, hh, hp, ah, ap, tls, sni] =>
+    let r : Req := { h2 := h2 == "1", hostHdr := parseHost hh hp, authority := parseHost ah ap,
+                     tls := if tls == "1" then some (parseHost sni "-") else none }
+    let m := handle r
+    let o : Option Outcome := match obs with
+      | ["rej"] => some (match m with | .forward _ => .rejectInvalid | x => x)
+      | _ => parseOutcome obs
+    match o with
+    | some o => (decide (m = o), spec r o, (verdict r o).getD "-", showOutcome m)
+    | none => (false, false, "C20/unparsable-observation", showOutcome m)
+  | _ => (false, false, "bad-line", "")
+
 end Hd.Sni
